@@ -31,11 +31,13 @@ from concurrent.futures import ThreadPoolExecutor
 from gverif import tlc
 from gverif.common import PY, SEED, child_env, die, ensure_repo, scratch
 from gverif.harness import Run
-from gverif.props.c15_pkg import build_ext
+from gverif.props.c15_pkg import SO_VARIANTS, XC_VARIANTS, build_ext
 
 PROP = "C15"
 F4 = ["none", "raises", "exit", "missingdep"]
 K4 = ["py", "pyi", "so", "missing"]
+K5 = ["py", "pyi", "so", "xc", "missing"]          # xc = compiled for the finder, not importable here (.pyd, tagged .pyd, .pyo)
+COMPILED = ("so", "sofile", "xc")
 AF4 = ["--", "a-", "-f", "af"]
 TOPS6 = ["py", "pyi", "so", "ns", "sofile", "missing"]
 
@@ -46,7 +48,7 @@ def tset(xs) -> str:
 
 def dom(**kw) -> dict:
     base = dict(ALLOWFORCE=AF4, RESOLVES=["off"], STUBMODES=["none"], LAYOUTS=["flat", "chain"], TOPS=TOPS6, KIDSA=K4, KIDSB=K4,
-                TOPFAULTS=F4, KIDFAULTS=F4, EXTFAULTS=["none"], EXTSTYLES=["none"], EXTPRIVATES=[False], EXTKINDS=["missing"])
+                TOPFAULTS=F4, KIDFAULTS=F4, EXTFAULTS=["none"], EXTSTYLES=["none"], EXTPRIVATES=[False], EXTKINDS=["missing"], PATHMUTS=["none"])
     base.update(kw)
     return base
 
@@ -58,6 +60,12 @@ DOMAINS = {
         "ladder": dom(KIDSB=["py", "so", "missing"], TOPFAULTS=["none", "missingdep"], KIDFAULTS=["none", "exit"]),
         # every fault kind on every executable module of a flat package with one sub-module
         "faultkinds": dom(LAYOUTS=["flat"], KIDSA=["py", "so"], KIDSB=["missing"], TOPS=["py", "so", "sofile"]),
+        # every module suffix the finder yields: importable compiled (so) and foreign compiled (xc) kinds everywhere, no faults
+        "suffixes": dom(TOPS=["py", "pyi", "so", "xc", "ns"], KIDSA=["py", "so", "xc", "missing"], KIDSB=["py", "so", "xc", "missing"],
+                        TOPFAULTS=["none"], KIDFAULTS=["none"]),
+        # module bodies that modify sys.path in place / rebind it, then succeed or fail
+        "pathmut": dom(ALLOWFORCE=["a-", "-f"], PATHMUTS=["inplace", "rebind"], TOPS=["py", "so", "sofile"], KIDSA=["py", "so", "missing"],
+                       KIDSB=["so", "missing"], TOPFAULTS=["none", "raises"], KIDFAULTS=["none", "exit"]),
         # stubs: in-package __init__.pyi, stubs-only package with / without find_stubs_package
         "stubs": dom(STUBMODES=["inpkg", "ext", "find", "find+ext"], LAYOUTS=["flat"], KIDSA=["py", "so", "missing"], KIDSB=["missing"],
                      TOPFAULTS=["none", "raises"], KIDFAULTS=["none", "missingdep"]),
@@ -69,6 +77,9 @@ DOMAINS = {
     "thorough": {
         # the full product: every kind of p / a / b in both layouts x every fault kind on every executable module
         "ladder": dom(),
+        "suffixes": dom(TOPS=["py", "pyi", "so", "xc", "ns"], KIDSA=K5, KIDSB=K5, TOPFAULTS=["none"], KIDFAULTS=["none", "raises"]),
+        "pathmut": dom(ALLOWFORCE=["a-", "-f", "af"], PATHMUTS=["inplace", "rebind"], TOPS=["py", "so", "sofile", "ns"], KIDSA=["py", "so", "missing"],
+                       KIDSB=["py", "so", "missing"]),
         "stubs": dom(STUBMODES=["inpkg", "ext", "find", "find+ext"], KIDSA=["py", "pyi", "so", "missing"], KIDSB=["missing", "so"],
                      TOPFAULTS=["none", "raises", "exit"], KIDFAULTS=["none", "missingdep"]),
         "external": dom(RESOLVES=["off", "off+true", "true", "false", "none"], STUBMODES=["none", "inpkg", "find+ext"], LAYOUTS=["flat"],
@@ -83,7 +94,7 @@ DOMAINS = {
 # seeded defects of the model (LoadProtocol.tla, cfg.bug) = the mutants transcribed; LoadProtocol_bugs.cfg run with -continue
 # must report every one of these invariants violated and must not report CleanHolds
 MODEL_BUGS = {"allowFirst": "CatchAllowFirst", "noReraise": "CatchNoReraise", "noFinally": "CatchNoFinally", "stubsDynamic": "CatchStubsDynamic",
-              "externalInspect": "CatchExternalInspect"}
+              "externalInspect": "CatchExternalInspect", "pydInspected": "CatchPydInspected", "guardedRestore": "CatchGuardedRestore"}
 
 EVENT_FIELDS = {
     "LoadExtensions": ["touched"], "Load": ["pkg"], "ResolveExternal": ["pkg"], "FindSpec": ["pkg", "res", "stubs", "viastubs"],
@@ -162,12 +173,12 @@ def clauses(cfg: dict, r: dict) -> list:
             if e["ev"] == "ChooseAgent":
                 chosen[e["m"]] = e["agent"]
         for m in ("p", "a", "b", "q"):
-            if file_of(cfg, m) in ("so", "sofile") and chosen.get(m) not in (None, "refuse", "create"):
+            if file_of(cfg, m) in COMPILED and chosen.get(m) not in (None, "refuse", "create"):
                 bad.append(("static-compiled-skipped", f"compiled module {m} was handed to agent {chosen[m]} with inspection disallowed"))
         offered = [e["m"] for e in ev if e["ev"] == "Submodule"]
         skipped = [e["m"] for e in ev if e["ev"] == "SkipSubmodule"]
         for m in offered:
-            if file_of(cfg, m) == "so" and m not in skipped and r["outcome"] == "Return":
+            if file_of(cfg, m) in COMPILED and m not in skipped and r["outcome"] == "Return":
                 bad.append(("static-compiled-skipped", f"compiled sub-module {m} was not skipped"))
     if not cfg["force"]:
         for e in ev:
@@ -366,7 +377,8 @@ def selftest_model_bugs(run: Run):
 # ---- main -------------------------------------------------------------------------------------------------------
 def sig_of(cfg: dict, clause: str, r: dict) -> dict:
     return {"clause": clause, "mode": mode_of(cfg), "top": cfg["file"]["p"], "stubs": cfg["stubs"] + ("+find" if cfg["findstubs"] else ""),
-            "ext": cfg["extstyle"] if cfg["extstyle"] == "none" else cfg["extstyle"] + ":" + cfg["extkind"], "outcome": r["outcome"]}
+            "ext": cfg["extstyle"] if cfg["extstyle"] == "none" else cfg["extstyle"] + ":" + cfg["extkind"], "pathmut": cfg.get("pathmut", "none"),
+            "outcome": r["outcome"]}
 
 
 def judge(run: Run, case: dict, r: dict, variants: list | None) -> tuple:
@@ -382,7 +394,7 @@ def judge(run: Run, case: dict, r: dict, variants: list | None) -> tuple:
     for clause, what in bad:
         run.violation(sig_of(cfg, clause, r), f"{clause}: {what}  [options allow={cfg['allow']} force={cfg['force']} resolve={cfg['resolve']}/{cfg['external']} "
                       f"find_stubs={cfg['findstubs']}; files {cfg['file']} layout {cfg['layout']} stubs {cfg['stubs']} ext {cfg['extstyle']}/{cfg['extkind']}; "
-                      f"faults {cfg['fault']}; compiled as {r.get('compiled_as')}{', bodies mutate sys.path' if case.get('hostile') else ''}]", {"case": case})
+                      f"faults {cfg['fault']}; compiled as {r.get('compiled_as')}/{r.get('xc_as')}; bodies' sys.path action: {cfg.get('pathmut')}]", {"case": case})
     drift = None
     if variants is not None:
         real = real_terminal(r)
@@ -464,14 +476,22 @@ def _main(run: Run, tier: str, rnd: random.Random, workdir: str, ext_so):
     cases = []
     for n, (k, vs) in enumerate(sorted(spec.items())):
         cfg = vs[0]["cfg"]
-        has_compiled = any(file_of(cfg, m) in ("so", "sofile") for m in ("p", "a", "b", "q"))
-        kinds = ["pyc"]
-        if has_compiled and ext_so:
-            # both concretisations of "compiled" for the ladder domain of the thorough tier, alternating elsewhere
-            kinds = ["pyc", "so"] if (tier == "thorough" and k in per_domain.get("ladder", ())) else [("pyc", "so")[n % 2]]
-        for ca in kinds:
-            # every other case: module bodies also mutate the sys.path they see (must not reach the caller's list)
-            cases.append({"id": len(cases), "cfg": cfg, "compiled_as": ca, "key": k, "hostile": n % 3 == 1})
+        kinds = {file_of(cfg, m) for m in ("p", "a", "b", "q")}
+        has_so, has_xc = bool(kinds & {"so", "sofile"}), "xc" in kinds
+        static = not (cfg["allow"] or cfg["force"])
+        so_all = SO_VARIANTS if ext_so else ["pyc"]
+        # concretisations of the compiled kinds rotate over the cases (4 and 3 variants: every pair occurs); the thorough tier
+        # takes every foreign-compiled suffix for the static cases and both a byte-code and a real extension module for the ladder
+        sos = [so_all[n % len(so_all)]] if has_so else ["pyc"]
+        xcs = [XC_VARIANTS[n % 3]] if has_xc else ["pyd"]
+        if tier == "thorough":
+            if has_xc and static:
+                xcs = XC_VARIANTS
+            if has_so and ext_so and k in per_domain.get("ladder", ()):
+                sos = ["pyc", "so"]
+        for ca in sos:
+            for xa in xcs:
+                cases.append({"id": len(cases), "cfg": cfg, "compiled_as": ca, "xc_as": xa, "key": k})
     rnd.shuffle(cases)
     nworkers = max(2, min(12, ncpu - 2))
     results = run_cases(cases, workdir, nworkers)
@@ -495,21 +515,22 @@ def _main(run: Run, tier: str, rnd: random.Random, workdir: str, ext_so):
                 run.note(f"drift (terminal state): {d}")
         static = not (cfg["allow"] or cfg["force"])
         static_n += static
-        if static and any(file_of(cfg, m) in ("so", "sofile") for m in ("p", "a", "b", "q")):
+        if static and any(file_of(cfg, m) in COMPILED for m in ("p", "a", "b", "q")):
             compiled_static += 1
         if r["executed"] and any(cfg["fault"][m] != "none" for m in r["executed"] if m in cfg["fault"]):
             faulted += 1
-        interesting = (not static) or any(file_of(cfg, m) in ("so", "sofile") for m in ("p", "a", "b", "q")) or any(v != "none" for v in cfg["fault"].values()) \
+        interesting = (not static) or any(file_of(cfg, m) in COMPILED for m in ("p", "a", "b", "q")) or any(v != "none" for v in cfg["fault"].values()) \
             or cfg["stubs"] != "none" or cfg["extstyle"] != "none"
         if interesting:
-            run.nontrivial_case(case["key"] + case["compiled_as"])
+            run.nontrivial_case(case["key"] + case["compiled_as"] + case["xc_as"])
         lines.append({"tid": case["id"], "cfg": dict(cfg, bug="none"), "events": project_events(r["events"])})
         if len(run.samples) < 4 and (faulted or static) and r["events"]:
             run.sample({"cfg": cfg, "compiled_as": r.get("compiled_as"), "outcome": r["outcome"], "executed": r["executed_seq"], "sysmodules": r["sysmodules"],
                         "path_same": r["path_same"], "path_equal": r["path_equal"], "events": [e["ev"] for e in r["events"]][:40]}, limit=4)
     run.extra.update(replayed_static=static_n, replayed_static_with_compiled_module=compiled_static, replayed_with_fault_fired=faulted,
-                     forked_cases=sum(1 for r in results.values() if r.get("forked")), compiled_as_so=sum(1 for r in results.values() if r.get("compiled_as") == "so"),
-                     hostile_bodies=sum(1 for c in cases if c["hostile"]))
+                     forked_cases=sum(1 for r in results.values() if r.get("forked")), concretisations={v: sum(1 for c in cases if c["compiled_as"] == v and {file_of(c["cfg"], m) for m in "pabq"} & {"so", "sofile"}) for v in SO_VARIANTS}
+                     | {v: sum(1 for c in cases if c["xc_as"] == v and "xc" in {file_of(c["cfg"], m) for m in "pab"}) for v in XC_VARIANTS},
+                     pathmut_runs={pm: sum(1 for c in cases if c["cfg"].get("pathmut") == pm and (c["cfg"]["allow"] or c["cfg"]["force"])) for pm in ("inplace", "rebind")})
     if static_n == 0 or compiled_static == 0 or faulted == 0:
         die("C15: vacuous replay (no static case / no static case with a compiled module / no fault ever fired)")
     # ---- 3. trace validation: every recorded trace must be a behaviour of the spec ------------------------------------------
